@@ -25,7 +25,9 @@ import (
 )
 
 type c12Crash struct {
-	Kind    string `json:"kind"` // strace | reg-request | reg-body | progress
+	Kind    string `json:"kind"`          // mutation | strace | reg-request | reg-body | progress
+	Ord     int    `json:"ord,omitempty"` // mutation: ordinal of the case among the scenario's mutation cases; N = 1 + (Ord*stride + 5*seed) mod M is resolved at run time (M = mutations of an uninterrupted run)
+	Of      int    `json:"of,omitempty"`
 	Class   string `json:"class,omitempty"`
 	N       int    `json:"n,omitempty"`
 	ReqKind string `json:"req_kind,omitempty"`
@@ -42,7 +44,7 @@ type c12Case struct {
 	KilledAt string   `json:"killed_at,omitempty"`
 }
 
-var c12Scenarios = []string{"pull-new", "pull-update", "create-files", "create-from-replace", "copy", "delete-shared", "delete-many-layers", "pull-update-backup", "create-replace-backup"}
+var c12Scenarios = []string{"pull-new", "pull-update", "create-files", "create-from-replace", "copy", "delete-shared", "delete-many-layers", "pull-update-backup", "create-replace-backup", "pull-resume-parts"}
 
 // c12Target: the manifest (path suffix) the scenario's operation is about; every other manifest of the prior
 // state belongs to a model that is not involved and must come through unchanged.
@@ -59,25 +61,59 @@ func c12Target(sc string) string {
 	}
 	return "library/del/latest"
 }
+
 var c12Classes = []string{"renameat,renameat2,rename", "unlinkat,unlink", "openat", "write,pwrite64", "ftruncate", "mkdirat,mkdir", "fchmodat,chmod,fchmod"}
 
 type c12World struct {
 	bin      string
+	seed     uint64
 	work     string
 	pool     [][]byte
 	mu       sync.Mutex
 	tmpl     map[string]string     // scenario -> template home dir (prior state)
 	control  map[string]storeState // scenario -> tree after an uninterrupted run
+	mutSeq   map[string][]string   // scenario -> store mutations (syscall:path class) of an uninterrupted run, in order
 	regs     map[string]*FakeReg   // scenario -> registry serving its content (shared; hooks are per case via plan)
 	hostOf   map[string]string
 	setupErr map[string]string
+}
+
+// c12Env: the resume scenario is about a server that runs without start-up pruning throughout (with pruning the
+// first start removes every left-over of an interrupted download and the scenario equals pull-new)
+func c12Env(sc string) []string {
+	if sc == "pull-resume-parts" {
+		return []string{"OLLAMA_NOPRUNE=1"}
+	}
+	return nil
+}
+
+func c12Template(extra string) []byte {
+	return []byte("{{ .Prompt }} " + extra + strings.Repeat("x", 5000))
+}
+
+// c12WriteParts leaves the state of an earlier pull that had fetched every part of a blob and died before it
+// finished the layer: the data file complete, one part file per part, all marked complete.
+func c12WriteParts(models string, data []byte, parts int) {
+	base := filepath.Join(models, "blobs", blobFile(sha(data)))
+	os.MkdirAll(filepath.Dir(base), 0o755)
+	off, ps := 0, len(data)/parts
+	for i := 0; i < parts; i++ {
+		sz := ps
+		if i == parts-1 {
+			sz = len(data) - off
+		}
+		pj, _ := json.Marshal(map[string]any{"N": i, "Offset": off, "Size": sz, "Completed": sz})
+		os.WriteFile(fmt.Sprintf("%s-partial-%d", base, i), append(pj, '\n'), 0o644)
+		off += sz
+	}
+	os.WriteFile(base+"-partial", data, 0o644)
 }
 
 func c12Publish(reg *FakeReg, pool [][]byte, repoTag string, blob int, extra string) {
 	var m manifestDoc
 	m.SchemaVersion, m.MediaType = 2, "application/vnd.docker.distribution.manifest.v2+json"
 	m.Layers = append(m.Layers, layerRef{"application/vnd.ollama.image.model", reg.AddBlob(pool[blob]), int64(len(pool[blob]))})
-	tb := []byte("{{ .Prompt }} " + extra + strings.Repeat("x", 5000))
+	tb := c12Template(extra)
 	m.Layers = append(m.Layers, layerRef{"application/vnd.ollama.image.template", reg.AddBlob(tb), int64(len(tb))})
 	cb, _ := json.Marshal(map[string]any{"model_format": "gguf", "model_family": "llama", "model_type": "1B", "file_type": "F16", "x": extra})
 	m.Config = layerRef{"application/vnd.docker.container.image.v1+json", reg.AddBlob(cb), int64(len(cb))}
@@ -88,7 +124,7 @@ func c12Publish(reg *FakeReg, pool [][]byte, repoTag string, blob int, extra str
 // c12Op runs the scenario's operation against srv. retry=true: the operation is being repeated after a crash.
 func (w *c12World) op(sc string, srv *Srv, reg *FakeReg, onLine func(int, map[string]any), retry bool) apiResult {
 	switch sc {
-	case "pull-new", "pull-update", "pull-update-backup":
+	case "pull-new", "pull-update", "pull-update-backup", "pull-resume-parts":
 		return srv.Pull(reg.RegHost+"/ns/pm:latest", true, onLine)
 	case "create-files":
 		d := sha(w.pool[1])
@@ -137,7 +173,7 @@ func (w *c12World) setup(sc string) (string, *FakeReg, storeState, string) {
 		return fail("setup create keep: " + r.Err)
 	}
 	switch sc {
-	case "pull-new":
+	case "pull-new", "pull-resume-parts":
 		c12Publish(reg, w.pool, "ns/pm:latest", 0, "v1")
 	case "pull-update", "pull-update-backup":
 		c12Publish(reg, w.pool, "ns/pm:latest", 0, "v1")
@@ -181,18 +217,34 @@ func (w *c12World) setup(sc string) (string, *FakeReg, storeState, string) {
 		}
 	}
 	srv.Stop()
+	if sc == "pull-resume-parts" {
+		// an earlier pull of the same model had fetched all five parts of the template layer and was interrupted
+		// before it finished that layer
+		c12WriteParts(filepath.Join(home, "models"), c12Template("v1"), 5)
+	}
 	// control run on a copy
 	ch := filepath.Join(w.work, "control-"+sc)
 	if out, err := exec.Command("cp", "-a", home, ch).CombinedOutput(); err != nil {
 		return fail("cp: " + string(out))
 	}
-	cs, err := StartSrv(w.bin, ch, nil)
+	cs, err := StartSrv(w.bin, ch, nil, c12Env(sc)...)
 	if err != nil {
 		return fail("control server: " + err.Error())
 	}
+	tr, terr := startMutTracer(cs.cmd.Process.Pid, filepath.Join(ch, "models"), 0, nil)
+	if terr != nil {
+		cs.Kill()
+		return fail("control tracer: " + terr.Error())
+	}
 	if r := w.op(sc, cs, reg, nil, false); !r.OK() {
+		tr.Finish(true)
 		cs.Kill()
 		return fail("control run of the operation failed: " + r.Err)
+	}
+	w.mutSeq[sc] = tr.Finish(true)
+	if len(w.mutSeq[sc]) == 0 {
+		cs.Kill()
+		return fail("control run: the tracer saw no mutation of the store")
 	}
 	cs.Stop()
 	// the control tree is taken after a pruning restart, like the crash runs
@@ -210,6 +262,14 @@ func c12Gen(r *kit.Rand, idx int) c12Case {
 	c := c12Case{Index: idx, Scenario: c12Scenarios[idx%len(c12Scenarios)], Procs: kit.Pick(r, []int{1, 1, 4}), NoPrune: r.Chance(1, 4)}
 	pull := strings.HasPrefix(c.Scenario, "pull")
 	k := r.Intn(10)
+	// 9 of every 20 cases of a scenario die after the N-th mutation of the store, counted over all threads; their
+	// ordinals are consecutive, so that M consecutive ones visit every point of an M-mutation operation once
+	if round := idx / len(c12Scenarios); round%20 < 9 {
+		c.Crash = c12Crash{Kind: "mutation", Ord: round/20*9 + round%20}
+		c.NoPrune = c.NoPrune || c.Scenario == "pull-resume-parts"
+		return c
+	}
+	c.NoPrune = c.NoPrune || c.Scenario == "pull-resume-parts"
 	switch {
 	case pull && k < 2:
 		c.Crash = c12Crash{Kind: "reg-request", ReqKind: kit.Pick(r, []string{"manifest", "head", "blobget", "cdn"}), N: r.Range(1, 3)}
@@ -222,6 +282,11 @@ func c12Gen(r *kit.Rand, idx int) c12Case {
 		c.Crash = c12Crash{Kind: "strace", Class: kit.Pick(r, c12Classes), N: kit.Pick(r, []int{1, 1, 1, 1, 2, 2, 2, 3, 3, 4, 5, 6})}
 		if (strings.HasPrefix(c.Crash.Class, "openat") || strings.HasPrefix(c.Crash.Class, "write")) && r.Chance(1, 3) {
 			c.Crash.N = r.Range(4, 14)
+		}
+		if c.Scenario == "pull-resume-parts" && r.Chance(2, 3) {
+			// finishing the layer removes the part files one by one: die between two of them
+			c.Crash.Class = "unlinkat,unlink"
+			c.Crash.N = r.Range(1, 6)
 		}
 		if c.Scenario == "delete-many-layers" && r.Chance(1, 2) {
 			c.Crash.Class = "unlinkat,unlink"
@@ -359,16 +424,34 @@ func (w *c12World) run(c *c12Case, rep *kit.Report) (vs []c12Viol, inconclusive 
 		control = ctl
 	}
 	prior := readStore(filepath.Join(home, "models"), true)
-	srv, err := StartSrv(w.bin, home, nil, fmt.Sprintf("GOMAXPROCS=%d", c.Procs))
+	srv, err := StartSrv(w.bin, home, nil, append(c12Env(c.Scenario), fmt.Sprintf("GOMAXPROCS=%d", c.Procs))...)
 	if err != nil {
 		return nil, "server start: " + err.Error()
 	}
 	defer func() { srv.Kill() }()
 	var onLine func(int, map[string]any)
 	var tracer *exec.Cmd
+	var mtr *mutTracer
 	trace := filepath.Join(home, "strace.out")
 	kill := func() { syscall.Kill(-srv.cmd.Process.Pid, syscall.SIGKILL) }
 	switch c.Crash.Kind {
+	case "mutation":
+		w.mu.Lock()
+		m := len(w.mutSeq[c.Scenario])
+		w.mu.Unlock()
+		stride := 7
+		for _, p := range []int{7, 11, 13, 17, 19} {
+			if m%p != 0 {
+				stride = p
+				break
+			}
+		}
+		c.Crash.Of = m
+		c.Crash.N = 1 + (c.Crash.Ord*stride+5*int(w.seed%1000))%m
+		mtr, err = startMutTracer(srv.cmd.Process.Pid, filepath.Join(home, "models"), c.Crash.N, kill)
+		if err != nil {
+			return nil, err.Error()
+		}
 	case "strace":
 		tracer, err = straceAttach(srv.cmd.Process.Pid, c.Crash.Class, c.Crash.N, trace)
 		if err != nil {
@@ -406,6 +489,18 @@ func (w *c12World) run(c *c12Case, rep *kit.Report) (vs []c12Viol, inconclusive 
 	}
 	time.Sleep(10 * time.Millisecond)
 	c.Killed = srv.WaitExit(300 * time.Millisecond)
+	if mtr != nil {
+		seq := mtr.Finish(!c.Killed)
+		if c.Killed && len(seq) >= c.Crash.N {
+			c.KilledAt = "after-" + seq[c.Crash.N-1]
+		} else if c.Killed {
+			if cr := srv.Crashed(); cr != "" {
+				return []c12Viol{{"c12:" + c.Scenario + ":server-died", fmt.Sprintf("the server died by itself after %d store mutations (kill planned after %d)\n%s", len(seq), c.Crash.N, tail(cr, 1500))}}, ""
+			}
+			return nil, fmt.Sprintf("the server died after %d mutations although the kill was planned after %d", len(seq), c.Crash.N)
+		}
+		rep.Count(fmt.Sprintf("mutations_seen_%s_%d", c.Scenario, len(seq)), 1)
+	}
 	if tracer != nil {
 		if !c.Killed {
 			tracer.Process.Signal(syscall.SIGINT) // detach
@@ -444,7 +539,9 @@ func (w *c12World) run(c *c12Case, rep *kit.Report) (vs []c12Viol, inconclusive 
 	}
 	models := filepath.Join(home, "models")
 	tag := fmt.Sprintf("%s:%s", c.Scenario, c.Crash.Kind)
-	add := func(v c12Viol) { vs = append(vs, c12Viol{"c12:" + c.Scenario + ":" + v.Sig, v.What + fmt.Sprintf(" [crash %+v, killed=%v at %s]", c.Crash, c.Killed, c.KilledAt)}) }
+	add := func(v c12Viol) {
+		vs = append(vs, c12Viol{"c12:" + c.Scenario + ":" + v.Sig, v.What + fmt.Sprintf(" [crash %+v, killed=%v at %s]", c.Crash, c.Killed, c.KilledAt)})
+	}
 	_ = tag
 	if c.Killed {
 		rep.Count("killed_"+c.Crash.Kind, 1)
@@ -517,16 +614,17 @@ func runC12() {
 	rep := kit.NewReport("C12")
 	cfg := rep.Cfg()
 	defer rep.Flush()
-	rep.Set("rule", "case i = PRNG(seed,'C12',i): scenario i mod 9 of {pull new, pull update of a tag (shared layer), create from uploaded file, re-create an existing model from another (prunes replaced layers), copy, delete a model that shares layers, delete a model with 24 layers of its own, pull update / re-create of a model of which a copy under another name was made before} on a prepared store that also holds uninvolved models (every manifest of the prior state other than the operation's target must come through byte-identical with intact layers); crash = SIGKILL of the real server at one point: strace-injected before the N-th syscall of a thread in one class of {rename*, unlink*, openat, write/pwrite64, ftruncate, mkdir*, chmod*} (N 1-14, GOMAXPROCS 1 or 4), or by the fake registry on arrival of the r-th manifest/HEAD/blob/CDN request or after b bytes of the r-th CDN body, or by the client after progress line m. Then: store inspected, real restart (start-up repair; 1/4 with OLLAMA_NOPRUNE), inspected again, operation repeated, inspected, restart, tree compared with the control run's. Non-trivial & distinct = distinct (scenario, crash kind, class or request kind, N / byte bucket, syscall+path class actually killed) among runs in which the server really was killed")
+	rep.Set("rule", "case i = PRNG(seed,'C12',i): scenario i mod 10 of {pull new, pull new on top of the complete multi-part resume files (data file + five part files, all marked complete) of an earlier interrupted pull of the same layer (server run with OLLAMA_NOPRUNE throughout, otherwise the first start removes the left-overs), pull update of a tag (shared layer), create from uploaded file, re-create an existing model from another (prunes replaced layers), copy, delete a model that shares layers, delete a model with 24 layers of its own, pull update / re-create of a model of which a copy under another name was made before} on a prepared store that also holds uninvolved models (every manifest of the prior state other than the operation's target must come through byte-identical with intact layers); crash = SIGKILL of the real server at one point: strace-injected before the N-th syscall of a thread in one class of {rename*, unlink*, openat, write/pwrite64, ftruncate, mkdir*, chmod*} (N 1-14, GOMAXPROCS 1 or 4), or by the fake registry on arrival of the r-th manifest/HEAD/blob/CDN request or after b bytes of the r-th CDN body, or by the client after progress line m. Then: store inspected, real restart (start-up repair; 1/4 with OLLAMA_NOPRUNE), inspected again, operation repeated, inspected, restart, tree compared with the control run's. Non-trivial & distinct = distinct (scenario, crash kind, class or request kind, N / byte bucket, syscall+path class actually killed) among runs in which the server really was killed")
 	rep.Set("assumptions", []string{"crash model = process death (SIGKILL): completed syscalls persist (page cache survives); power loss / missing fsync is outside the statement", "strace's when=N counts per thread, so not every global ordinal is reachable; the points actually hit are listed in coverage.killed_points"})
-	w := &c12World{bin: os.Getenv("VERIF_OLLAMA_BIN"), pool: c04Pool(nil), tmpl: map[string]string{}, control: map[string]storeState{}, regs: map[string]*FakeReg{}, setupErr: map[string]string{}}
+	w := &c12World{bin: os.Getenv("VERIF_OLLAMA_BIN"), pool: c04Pool(nil), tmpl: map[string]string{}, control: map[string]storeState{}, regs: map[string]*FakeReg{}, setupErr: map[string]string{}, mutSeq: map[string][]string{}}
 	var err error
+	w.seed = cfg.Seed
 	w.work, err = os.MkdirTemp("", "verif-c12-")
 	if err != nil {
 		panic(err)
 	}
 	defer os.RemoveAll(w.work)
-	n := cfg.N(270, 10800)
+	n := cfg.N(300, 12000)
 	replayIdx := -1
 	if cfg.Replay != "" {
 		var rc struct {
@@ -553,6 +651,9 @@ func runC12() {
 			defer wg.Done()
 			defer func() { <-sem }()
 			c := c12Gen(kit.NewRand(cfg.Seed, "C12", i), i)
+			if only := os.Getenv("VERIF_C12_SCENARIO"); only != "" && c.Scenario != only { // debugging aid
+				return
+			}
 			vs, inc := w.run(&c, rep)
 			rep.Eval(1)
 			if inc != "" {
@@ -570,7 +671,11 @@ func runC12() {
 				key := fmt.Sprint(c.Scenario, c.Crash.Kind, c.Crash.Class, c.Crash.ReqKind, c.Crash.N, bucket, c.KilledAt)
 				rep.Distinct(key)
 				pmu.Lock()
-				points[fmt.Sprintf("%s|%s|%s%s|%s", c.Scenario, c.Crash.Kind, c.Crash.Class, c.Crash.ReqKind, c.KilledAt)]++
+				if c.Crash.Kind == "mutation" {
+					points[fmt.Sprintf("%s|mutation|%03d of %d|%s", c.Scenario, c.Crash.N, c.Crash.Of, c.KilledAt)]++
+				} else {
+					points[fmt.Sprintf("%s|%s|%s%s|%s", c.Scenario, c.Crash.Kind, c.Crash.Class, c.Crash.ReqKind, c.KilledAt)]++
+				}
 				pmu.Unlock()
 			}
 			if rep.NeedSample() && c.Killed {
@@ -580,4 +685,11 @@ func runC12() {
 	}
 	wg.Wait()
 	rep.Set("killed_points", points)
+	seqs := map[string]string{}
+	w.mu.Lock()
+	for sc, q := range w.mutSeq {
+		seqs[sc] = fmt.Sprintf("%d: %s", len(q), strings.Join(q, " "))
+	}
+	w.mu.Unlock()
+	rep.Set("store_mutations_of_an_uninterrupted_run", seqs)
 }
